@@ -113,19 +113,12 @@ def repo_file_text(path):
 RESERVED_SANITISED = {"e", "pi", "oo", "zoo", "nan", "true", "false", "if", "else", "elif", "end", "while", "i"}
 
 
-def _fixed_limit(element):
-    """transform_to_after_loop with the iteration symbol the closed forms really contain"""
-    from sympy import limit_seq, Symbol
-    from utils import unpack_piecewise
-    return limit_seq(unpack_piecewise(element), Symbol("n", integer=True))
-
-
 def run_query(text=None, path=None, kind="ei", query="", nmax=4, repair=None):
     """`polar.py file.bif --exact_inference q` / `--sample_time_until q`, in-process.
 
     Returns the generated program, the name mapping, the moments handed to `generate_result` evaluated at
-    n = 0..nmax, the value `generate_result` prints (tagged exact rational / symbolic / undefined), the same
-    value with the limit taken over the integer symbol (`final_fixed_limit`), and the printed text.
+    n = 0..nmax, the value `generate_result` prints (tagged exact rational / symbolic / undefined) and the
+    printed text.
     repair (list): "names": sanitised names that are reserved words of Polar get a suffix (attribution of
     F31); "remainder": the omitted last probability of a choice is computed exactly (attribution of F33)."""
     from harness.tasks.analyze import to_rational, eval_closed_form, _err
@@ -250,10 +243,6 @@ def run_query(text=None, path=None, kind="ei", query="", nmax=4, repair=None):
         out = rec["limit_out"][-1]
         res["final"] = to_rational(out)
         res["final_str"] = str(out)[:400]
-        try:
-            res["final_fixed_limit"] = to_rational(_fixed_limit(rec["limit_in"][-1]))
-        except Exception as e:  # noqa
-            res["final_fixed_limit"] = ("bad", type(e).__name__)
     m = re.search(r"(?:^|\n)(E\(.*?\) = (.*?) ≈ .*|The expected number of samples until .* is (.*?) ≈ .*)", res.get("printed", ""))
     if m:
         res["printed_line"] = m.group(1)[:500]
